@@ -77,13 +77,21 @@ def exec_cases(draw):
 @st.composite
 def later_cases(draw):
     n = draw(st.integers(1, 8))
+    if draw(st.integers(0, 5)) == 0:
+        # constructed: one request names a task and tasks whose uids contain its uid; the
+        # component meets the short one first, the others in a later bulk
+        return {'kind': 'later', 'n': 8, 'nested': True, 'single': False,
+                'cancel': [[0, 1, 4], [draw(st.integers(0, 9))]],
+                'bulks': [[0, draw(st.sampled_from([2, 7]))], [1, 4], [3, 5]],
+                'order': [1] + draw(st.lists(st.integers(0, 1), min_size=2, max_size=6))}
     return {'kind': 'later', 'n': n,
             'bulks': draw(st.lists(st.lists(st.integers(0, n - 1), min_size=1, max_size=5, unique=True),
                                    min_size=1, max_size=3)),
             'cancel': draw(st.lists(st.lists(st.integers(0, n + 1), min_size=1, max_size=3),
                                     min_size=1, max_size=3)),
             'order': draw(st.lists(st.integers(0, 1), min_size=2, max_size=8)),
-            'single': draw(st.booleans())}
+            'single': draw(st.booleans()),
+            'nested': draw(st.integers(0, 2)) == 0}
 
 
 @st.composite
@@ -244,6 +252,11 @@ def run_later(case, res):
     pub = sess.fakes.Publisher(rpc.CONTROL_PUBSUB, url=url_c)
     n = case['n']
     uids = ['task.%06d' % i for i in range(n + 2)]
+    if case.get('nested'):
+        # uids which contain each other: a raptor master and its workers, user-chosen names
+        uids = ['raptor.0000', 'raptor.0000.0000', 'sim.1', 'sim.10', 'raptor.0000.0001', 'sim.100',
+                'sim.11', 'w', 'w.a', 'w.a.b'][:n + 2]
+        res.label('later:nested_uids')
     bulks = [list(b) for b in case['bulks']]
     cancels = [list(c) for c in case['cancel']]
     named, submitted, seen_before = set(), [], set()
